@@ -63,6 +63,28 @@ EXTRA = {
  "C17": "Trusted base: TLC, the virtual clock (mosaik.scheduler.perf_counter replaced by the harness). Jitter of a real clock is out of scope.",
 }
 
+# what the second session added (DESIGN.md §12): appended to the texts above
+ADD = {
+ "C01": (" Below MosaikSched the wake-up layer is specified (ProgressWake.tla: parked has_passed/has_reached calls, set() resolves exactly those whose condition holds): TLC on small constants, a TLAPS proof that NoLostWakeup and the soundness of resolved values are inductive for arbitrary owners / times / delays / callers, and ProgressTrace validation of every Progress.set / _add_trigger call of the executions that carry internal traces.",
+         " + TLC/TLAPS on ProgressWake + ProgressTrace validation of recorded Progress calls"),
+ "C05": (" The wake-up layer (ProgressWake.tla, see C01) is model-checked, proved inductive with TLAPS and bound to mosaik/progress.py by ProgressTrace; the request-protocol layer PR_* of MosaikRef is evaluated on every execution; both report drift only.",
+         " + TLC/TLAPS on ProgressWake + ProgressTrace validation"),
+ "C08": (" Second part: the delays mosaik ACCUMULATES per (simulator, triggering ancestor) pair (cache_triggering_ancestors / update_min) for ~22k grouped connection graphs are judged by TLC against the path semantics of PathDelays.tla. Third part: TLAPS proofs (TieredProof.tla) that the specification's Compose equals applying the delays one after the other and is associative - for every shape and all integer tier values.",
+         " + TLC table validation of accumulated path delays (PathDelays.tla) + TLAPS proofs of the Compose laws"),
+ "C06": (" The family includes scenarios with connect() calls that mosaik refuses (caught by the script) before / after the connections and group context managers created up front / used as decorators; a legal scenario that cannot be built counts.", ""),
+ "C11": (" History rows: the same call after earlier refused calls of the same world, after a group block left by an exception, and after an accepted call that was given the same initial_data dict object - verdict and run must not depend on that history.", ""),
+ "C12": (" Starts through World.start vary the announced API version (adapters), a sibling model and a twin model described by the same dict object.", ""),
+ "C15": (" In-process stubs come in three legal v3 signature shapes and as classes derived from a class of the opposite kind that was started earlier.", ""),
+ "C17": (" The rt_strict run must end with the too-slow error iff the non-strict run of the same scenario has a too-slow report (DetTrace clause).", ""),
+ "C18": (" The entity sets are handed over in several container shapes, including ONE list object as source and destination set.", ""),
+ "C10": (" One profile runs in real-time mode with consumers slower than real time and simulators that declare set_events.", ""),
+}
+for _pid, (_t, _k) in ADD.items():
+    _ref, _text, _tech = CHECKS[_pid]
+    CHECKS[_pid] = (_ref, _text + _t, _tech + _k)
+SCHED_NOTE = SCHED_NOTE.replace("(DESIGN.md 11.6 lists what each seeded change forced in)", "(DESIGN.md 11.6 and 12 list what each seeded change forced in: child entities of other models, several worlds per process reusing ids, public queries before run(), positional call shapes, group context managers entered elsewhere, timers firing before replies, ...)")
+
+
 def main():
     global EXTRA_NOTES
     EXTRA_NOTES = dict({k: PURE_NOTE for k in ("C06", "C08", "C11", "C12", "C15", "C18")}, **EXTRA)
@@ -91,6 +113,7 @@ def main():
         },
         "engines": [
             {"name": "tlc", "path": "/usr/local/bin/tlc", "serves_properties": sorted(CHECKS), "kind_free_text": "TLC 1.8 explicit-state model checker: exhaustive exploration of spec/MosaikSched.tla and trace validation with spec/RefTrace.tla and the *Table.tla modules"},
+            {"name": "tlapm", "path": "/usr/local/bin/tlapm", "serves_properties": ["C01", "C05", "C08"], "kind_free_text": "TLA+ proof system 1.6: machine-checked proofs about the SPECIFICATION (ProgressWakeProof.tla: NoLostWakeup and result soundness inductive; TieredProof.tla: Compose = sequential Apply, Compose associative) for unbounded parameters; never a verdict on the code"},
             {"name": "harness", "path": "/verif/harness", "serves_properties": sorted(CHECKS), "kind_free_text": "virtual-time asyncio loop + scripted asynchronous simulators driving the real mosaik scheduler along TLC-generated / seeded reply schedules"},
         ],
         "checks": checks,
